@@ -318,6 +318,7 @@ def run(ctx, F, rule="E-RAW"):
         ctx.ob(rule + ".probe", rule + ".probe:reserve", reads_free and any(c.endswith("::reserve_rehash") for c in calls),
                "reserve (%s) must compare the free-slot counter with the required spare and call reserve_rehash" % F.where(fid))
     check_slot_clone(ctx, F)
+    check_remove_successor(ctx, F)
 
 
 def check_slot_clone(ctx, F, rule="E-RAW.clone"):
@@ -361,4 +362,46 @@ def check_slot_clone(ctx, F, rule="E-RAW.clone"):
                             "the clone of a slot carries the status word of the original" if ok else
                             "on some path the cloned slot does not carry `self.status` (e.g. a constant FREE slot for a "
                             "tombstone): probe chains of the cloned table are cut"))
+    return 1
+
+
+def check_remove_successor(ctx, F, rule="E-RAW.succ"):
+    """`remove_at_slot_unchecked` may turn the vacated slot into FREE only if its successor *is FREE*: behind a
+    tombstone successor the probe chain continues, so the vacated slot must become a TOMBSTONE.  From MIR: the block
+    that raises `free` (and stores FREE) is reached only through the `true` edge of an equality test between a status
+    and the constant `S::FREE` -- a weaker test such as `!status.is_hash()` also accepts tombstones."""
+    fids = [f for f in F.mir if f.startswith("linear_hashtbl::raw::") and f.endswith("::remove_at_slot_unchecked")]
+    if not ctx.anchor(rule, "RawTable::remove_at_slot_unchecked", len(fids) == 1):
+        return 0
+    fid = fids[0]
+    m = F.mir[fid]
+    B = cfg.Body(m)
+    incs = [i for i, k in free_writes(m, B) if k == "+1"]
+    eq_tests = []   # (switch block, true successor, false successors)
+    for i in sorted(B.reach):
+        b = m["blocks"][i]
+        t = b["t"]
+        if b["c"] or t["k"] != "call" or not (cfg.callee_name(t) or "").endswith("PartialEq::eq"):
+            continue
+        consts = [const_of((s.get("rv") or {}).get("op")) for s in b["s"] if (s.get("rv") or {}).get("k") == "use"]
+        arg_locals = {a.get("mv", a.get("cp")) for a in t["a"]}
+        # one operand must (transitively within the block) be a reference to the constant FREE
+        if not any(c and c.endswith(FREE_C) for c in consts):
+            continue
+        nxt = t.get("t")
+        if nxt is None:
+            continue
+        tt = m["blocks"][nxt]["t"]
+        if tt["k"] == "switch":
+            false_succ = [blk for v, blk in tt["t"] if str(v) == "0"]
+            eq_tests.append((nxt, tt["o"], false_succ))
+    ok = bool(incs) and all(
+        any(B.dominates(ts, i) and not any(i in B.reachable_from(fs, avoid=(sw,)) for fs in fss) for sw, ts, fss in eq_tests)
+        for i in incs)
+    ctx.ob(rule, rule + ":remove_at_slot_unchecked", ok,
+           "%s (%s): %s" % (F.nice(fid), F.where(fid),
+                            "`free += 1` (slot becomes FREE) only on the edge `successor status == S::FREE`" if ok else
+                            "`free += 1` / the FREE store is not guarded by an equality test of the successor's status with "
+                            "S::FREE: a tombstone successor also makes the vacated slot FREE, cutting the probe chain of the "
+                            "elements behind it"))
     return 1
